@@ -81,6 +81,33 @@ def run_threads(shard, mon, S, table):
         mon.viol("mutant_accepted_under_threads", {"base": b, "mutant": m, "threads": n_threads}, "rejected", "accepted")
     for b in wrongly_rejected[:3]:
         mon.viol("valid_base_rejected_under_threads", {"base": b, "threads": n_threads}, "accepted", "rejected")
+    # the systematic version for a few bases: the valid IBAN and one typing error of it under every single
+    # preemption point of either call (deterministic scheduler), and the mistyped text once more right afterwards
+    from vf.mon.sched import Scheduler  # noqa: PLC0415
+
+    sched = Scheduler(env.PKG, "line")
+    sched.install()
+    try:
+        for b, muts in work[: 3 if shard["tier"] == "quick" else 12]:
+            m = next((x for x in muts if x[:4] == b[:4]), muts[0])
+            th = [lambda: observe(S.IBAN, b).ok, lambda: observe(S.IBAN, m).ok]
+            base_run = sched.run(th, first=0)
+            for first, n_first in ((0, base_run["steps"][0]), (1, base_run["steps"][1])):
+                for k in range(1, n_first + 1):
+                    r = sched.run(th, first=first, preempt={(first, k)})
+                    again = observe(S.IBAN, m).ok
+                    mon.ev()
+                    mon.tally("scheduled_valid_vs_typo")
+                    mon.distinct(("sched", b, m, first, k))
+                    if r["hung"]:
+                        mon.inconclusive.append("scheduled pair hung")
+                        continue
+                    if r["results"][0] is not True:
+                        mon.viol("valid_base_rejected_under_threads", {"base": b, "mutant": m, "schedule": {"first": first, "preempt": [[first, k]]}}, "accepted", r["results"][0])
+                    if r["results"][1] is not False or again:
+                        mon.viol("mutant_accepted_under_threads", {"base": b, "mutant": m, "schedule": {"first": first, "preempt": [[first, k]]}, "accepted_when": "during the schedule" if r["results"][1] else "presented again afterwards"}, "rejected", "accepted")
+    finally:
+        sched.uninstall()
 
 
 def run_shard(shard, out_base):
